@@ -39,6 +39,15 @@ def cases(rng, tier, Case):
         for L in (lab, lab2):
             docs += ["see [foo][" + L + "] for *details*", "[" + L + "] `c` [bar]\n\n[bar]: /u", "[" + L + "]: /long\n\n[t][" + L + "] & [" + L + "][] x",
                      "![a][" + L + "] <http://x.y> z"]
+    # lines that almost open an HTML block, right after a paragraph / quote / list line: every block tag name, as opening
+    # and closing tag, extended by one more character (seed C16-12: look-ahead deciding on a truncated line)
+    HTMLNAMES = ("address article aside base basefont blockquote body caption center col colgroup dd details dialog dir div dl dt fieldset figcaption figure "
+                 "footer form frame frameset h1 h2 h3 h4 h5 h6 head header hr html iframe legend li link main menu menuitem nav noframes ol optgroup option p param "
+                 "section source summary table tbody td tfoot th thead title tr track ul pre script style textarea").split()
+    for t in HTMLNAMES:
+        for line in ("</" + t + "s bar", "<" + t + "x y", "</" + t + "-x>", "<" + t + "s>", "</" + t + "s>", "<" + t, "</" + t, "<" + t + "/", "<" + t.upper() + "Z>"):
+            pre = rng.choice(["a\n", "> q\n", "- i\n", "1. o\n", "a\nb\n"])
+            docs.append(pre + line + "\nc")
     for d in docs:
         cfg = rng.choice(["CsW", "CsW", "CsW1", "CsW2", mdgen.gen_cfg(rng)])
         res.append(Case("parse %s 100 RP %s" % (cfg, hx(d)), "probe", {"src": hx(d), "cfg": cfg}))
